@@ -386,6 +386,11 @@ class Desugar(ast.NodeTransformer):
 
     def visit_ListComp(self, node):
         self.generic_visit(node)
+        # [E for v in (a, b, c)]  ->  [E[a], E[b], E[c]]
+        if len(node.generators) == 1 and not node.generators[0].ifs and isinstance(node.generators[0].iter, (ast.Tuple, ast.List)) \
+                and 0 < len(node.generators[0].iter.elts) <= 8 and isinstance(node.generators[0].target, ast.Name):
+            g = node.generators[0]
+            return ast.copy_location(ast.List(elts=[_subst(node.elt, {g.target.id: e}) for e in g.iter.elts], ctx=ast.Load()), node)
         # [E for _ in range(K)], K literal <= 4, variable unused
         if len(node.generators) == 1 and not node.generators[0].ifs:
             g = node.generators[0]
@@ -397,6 +402,17 @@ class Desugar(ast.NodeTransformer):
 
     def visit_Assign(self, node):
         self.generic_visit(node)
+        # xs = [f(), g()]  ->  _x0 = f(); _x1 = g(); xs = [_x0, _x1]     (elements evaluated in the same order, then named)
+        if len(node.targets) == 1 and isinstance(node.targets[0], ast.Name) and isinstance(node.value, (ast.List, ast.Tuple)) and 0 < len(node.value.elts) <= 8 \
+                and any(isinstance(x, ast.Call) for e in node.value.elts for x in ast.walk(e)) and not any(isinstance(e, ast.Starred) for e in node.value.elts):
+            pre, elts = [], []
+            k = next(_counter)
+            for i, e in enumerate(node.value.elts):
+                nm = f"_{node.targets[0].id}{k}_{i}"
+                pre.append(ast.copy_location(ast.Assign(targets=[ast.Name(id=nm, ctx=ast.Store())], value=e, lineno=node.lineno), node))
+                elts.append(ast.Name(id=nm, ctx=ast.Load()))
+            node.value = type(node.value)(elts=elts, ctx=ast.Load())
+            return pre + [node]
         # a, b, c = (E for _ in range(3))
         if len(node.targets) == 1 and isinstance(node.targets[0], (ast.Tuple, ast.List)) and isinstance(node.value, ast.GeneratorExp):
             r = self.visit_ListComp(ast.ListComp(elt=node.value.elt, generators=node.value.generators))
